@@ -27,6 +27,8 @@ class Link:
         self.seen = [0, 0]
         self.strangers = []
         self.force_copy_later = False
+        self.calm = False       # the link itself behaves (what is replayed then is scripted by the session)
+        self.down_log = []      # (link, data) of the server -> client datagrams that passed, oldest first
         mbox.hook = self.hook
 
     def act(self, what):
@@ -34,6 +36,8 @@ class Link:
 
     def hook(self, ln, d, data):
         self.seen[d] += 1
+        if d == 1 and len(self.down_log) < 400:
+            self.down_log.append((ln, data))
         out = []
         # datagrams held back earlier come out once enough later ones have passed them
         keep = []
@@ -44,7 +48,7 @@ class Link:
                 keep.append((left - 1 if d2 == d else left, l2, d2, data2))
         self.held = keep
         r = self.rnd.random()
-        if self.seen[d] <= 1:
+        if self.seen[d] <= 1 or self.calm:
             r = 0.0             # the first datagram of a direction sets the session up: let it through
         elif d == 0 and self.force_copy_later:
             # scripted by the session: this client datagram passes now and a copy of it is kept until flush()
@@ -98,7 +102,7 @@ class Link:
             s.close()
 
 
-async def session(conf, seed, events, stats, n):
+async def session(conf, seed, events, stats, n, restart=False):
     rnd = random.Random(seed)
     dep = e2e.Deployment(conf, "c11")
     mbox = None
@@ -134,6 +138,31 @@ async def session(conf, seed, events, stats, n):
         link.flush()
         await s.w.drain(0, 2.0)
         link.flush()
+        if restart:
+            # The server is restarted (for the client the same thing as its association expiring there): it answers the same
+            # client session under a NEW server session id whose packet ids start at 1 again.  Those ids have not been
+            # accepted before in that session, so the replies reach their application; recorded datagrams of the OLD server
+            # session, presented again between them, are copies all the same.
+            old = list(link.down_log)
+            link.calm = True        # copies of CLIENT datagrams from before the restart are not this scenario's matter: a
+            await asyncio.sleep(0.2)  # restarted server has forgotten its sessions (the timestamp window bounds that)
+            dep.server.stop()
+            dep.start_server()
+            await dep.wait_bound(dep.server, dep.server_port, kinds=("udp",))
+            stats["server_restarts"] = stats.get("server_restarts", 0) + 1
+            for k in range(10):
+                a, t = rnd.randint(1, 2), rnd.randint(1, 2)
+                s.send(a, t, rnd.randint(16, 400), rep=1, rsize=rnd.randint(16, 400))
+                await s.w.drain(0, 1.5)
+                if old and k >= 2:
+                    ln, data = old[(k * 7) % len(old)]
+                    mbox.inject(ln, 1, data)
+                    ln, data = old[-1 - (k % min(3, len(old)))]
+                    mbox.inject(ln, 1, data)
+                    stats["old_session_replays"] = stats.get("old_session_replays", 0) + 2
+                    await asyncio.sleep(0.03)
+            link.flush()
+            await s.w.drain(0, 2.0)
         await s.end(events, {"kind": "c11-link", "seed": seed, "n": n})
         link.close()
         events.append({"ev": "Reset"})
@@ -154,7 +183,7 @@ def run(c, tier):
     events, stats = [], {}
     for ci, conf in enumerate(confs):
         for r in range(rounds):
-            asyncio.run(session(conf, vlib.seed() * 10000 + ci * 100 + r, events, stats, n))
+            asyncio.run(session(conf, vlib.seed() * 10000 + ci * 100 + r, events, stats, n, restart=(r % 2 == 1)))
             c.add("link_sessions", 1)
     c.cov["link_actions"] = stats
     for what, seg in c02.judge(c, "c11", events, prop="C11"):
